@@ -142,6 +142,22 @@ theorem generate_parse (exts : Array Ext) (nbF : Nat) (hnf : nbF ≤ 48) (hv : A
       ∀ g, (refs.filter (fun r => r.frame = g)).map (ExtRef.toExt bs) = (allOf exts g).map normExt :=
   generate_parse_full exts nbF hnf hv len hlen cap hcap
 
+/-- **generate_parse (with the padding request).**  With `pad = 1` the generator fills the buffer: the
+    extension block is preceded by `01` padding bytes up to `len`; for every number `k` of such bytes (also
+    what the repacketizer's padding path produces) the reader skips them — including when it replays a
+    repeat block whose source region starts at the first padding byte — and reports the same extensions. -/
+theorem generate_parse_padded (exts : Array Ext) (nbF : Nat) (hnf : nbF ≤ 48) (hnf0 : 0 < nbF) (hv : AllValid exts nbF) :
+    (∀ len : Int, ((serAll exts.size (queues exts nbF) 0 0).length : Int) ≤ len →
+      generate false len exts nbF true =
+        .ok (List.replicate (len.toNat - (serAll exts.size (queues exts nbF) 0 0).length) 1 ++
+              serAll exts.size (queues exts nbF) 0 0).toArray) ∧
+    (∀ (k : Nat) (cap : Int), (exts.size : Int) ≤ cap →
+      let x := List.replicate k 1 ++ serAll exts.size (queues exts nbF) 0 0
+      ∃ refs, parse x x.length cap nbF = .ok refs ∧ refs.length = exts.size ∧
+        refs.map (ExtRef.toExt x) = (expAll (queues exts nbF)).map normExt ∧
+        ∀ g, (refs.filter (fun r => r.frame = g)).map (ExtRef.toExt x) = (allOf exts g).map normExt) :=
+  ⟨fun len hlen => generate_padded exts nbF hnf hv len hlen, fun k cap hcap => parse_padded_full exts nbF hnf hnf0 hv k cap hcap⟩
+
 /-- **generate_parse (through `parse_ext`).**  On the generated bytes `count_ext` reports the number of
     extensions, and `parse_ext` with its per-frame counts returns all of them sorted by frame, in the
     original per-frame order (`sortedFrom exts nbF 0` = stable sort of the array by frame), with
